@@ -16,6 +16,7 @@ MUST_RAISE = [
     'window-empty', 'window-beyond', 'slong-2^31', 'list-to-single-valued-attribute', 'sul-seq-not-positive',
     'sul-seq-not-an-integer', 'header-seq-not-an-integer', 'header-seq-reassigned-invalid', 'origin-ref-of-no-origin',
     'no-logical-file', 'status-fraction-not-float', 'missing-dataset-after-earlier-write', 'partial-data-after-earlier-write',
+    'float-cast-out-of-range',
 ]
 FRINGE = ['empty-value-list', 'empty-text', 'empty-payload', 'single-row', 'width-1', 'origin-ref-0', 'name-255', 'ident-255',
           'text-20000', 'units-255', 'many-values-300', 'set-name-255', 'header-id-65', 'sul-id-60', 'empty-ident',
@@ -38,7 +39,7 @@ def cases(tier, seed):
     i = 0
     reps = 2 if tier == 'quick' else 25
     for c in MUST_RAISE + FRINGE:
-        for j in range(reps * (4 if c.startswith('window-') or c.startswith('list-to') else 1)):      # (window classes: several sources x chunk sizes)
+        for j in range(reps * (4 if c.startswith('window-') or c.startswith('list-to') or c.startswith('float-cast') else 1)):      # (window classes: several sources x chunk sizes)
             yield {'stratum': 'catalogue', 'index': i, 'kind': 'class', 'class': c}
             i += 1
 
@@ -89,6 +90,23 @@ def inject(sp, c, r):
     if c == 'data-3d':
         ops[fch[-1]]['data']['shape'] = [n, 2, 2]
         return 'channel data'
+    if c == 'float-cast-out-of-range':
+        # a float the declared cast dtype cannot hold (of moderate size: numpy converts it without any floating-point flag)
+        from vf.spec import OOR_VALUES
+        dst, v = r.choice([('uint8', 300.0), ('uint8', -1.0), ('int8', -129.0), ('uint16', 70000.0), ('int16', -40000.0),
+                           ('uint32', 5e9), ('uint32', -1.0), ('uint32', 4294967296.0), ('int32', 2147483648.0), ('float32', 1e39)])
+        tgt = fch[-1] if len(fch) > 1 or r.random() < 0.5 else fch[0]
+        shape = ops[tgt]['data']['shape']
+        size = 1
+        for d_ in shape:
+            size *= d_
+        ops[tgt]['data'] = {'dtype': r.choice(['<f8', '>f8']), 'shape': shape, 'layout': r.choice(['C', 'strided']),
+                            'fill': {'kind': 'oor', 'bad_at': [[r.randrange(size), OOR_VALUES.index(v)]]}}
+        ops[tgt]['cast_dtype'] = {'$dtype': dst, 'as': 'type'}
+        sp['write']['input_chunk_size'] = r.choice([None, 1, 2, 3])
+        sp['write'].pop('from_idx', None)
+        sp['write'].pop('to_idx', None)
+        return f'channel data cast to {dst} ({sp["write"].get("source", "inline")} source)'
     if c in ('missing-dataset-after-earlier-write', 'partial-data-after-earlier-write'):
         # history: a first write is given all data through write(data=dict); a later write of the same DLISFile is not
         sp['write']['source'] = 'dict'
